@@ -1080,3 +1080,129 @@ def half_connection_accept_exact(cx, iid):
                         if not any(re.fullmatch(a, lit) for a in allowed):
                             inst.violation(b.path, "%s conditioned on the frame" % callee.split("::")[-1],
                                            "%s calls %s only under `%s`: a condition on the frame that is not one of the reviewed acceptance tests" % (fn, callee, lit[:140]), at=b.span_at(loc))
+
+
+def _ctor(R, fn, adt):
+    b = R.body(fn)
+    for loc, s2 in b.assigns():
+        rv = s2["rv"]
+        if rv["k"] == "agg" and rv.get("adt", "").endswith(adt) and rv.get("fields"):
+            return b, loc, {n: show(b.operand_expr(o)) for n, o in zip(rv["fields"], rv["ops"])}
+    return b, None, {}
+
+
+def ctor_initial_state(cx, iid):
+    """T7: the constructors start the windows, counters and the credit where the rest of the code assumes they start:
+    the window size stored is the one the slot table and the mask were built for (a sender told `4096` with a table of 4
+    overwrites live slots), the windows start empty at the negotiated ids, counters at 0, and the flush credit at 0 (the
+    one-frame overdraft is the only slack the rate bound has)."""
+    R = cx.R
+    want = {
+        ("PacketSender::new", "PacketSender"): {"window_size": "arg1", "window_mask": "sub(arg1,1)", "base_id": "arg2", "next_id": "arg2", "alloc": "0", "total_size": "0"},
+        ("PacketReceiver::new", "PacketReceiver"): {"receive_window_size": "arg1", "receive_window_mask": "sub(arg1,1)", "base_id": "arg2", "end_id": "arg2"},
+        ("half_connection::HalfConnection::new", "HalfConnection"): {"flush_alloc": "0", "sync_reply": "false"},
+        ("RecvRateSet::reset", "RecvEntry"): {"value": "arg3", "timestamp_ms": "arg2", "is_initial": "false"},
+    }
+    with cx.instance(iid, "T7 SHAPE (constructors)", "PacketSender / PacketReceiver / HalfConnection start with the window size they were given, empty windows at the negotiated ids, zero counters and zero flush credit; RecvRateSet::reset stores the rate it was given", floor=4) as inst:
+        for (fn, adt), fields in want.items():
+            b, loc, got = _ctor(R, fn, adt)
+            if loc is None:
+                inst.violation(b.path, adt + " literal", "%s no longer builds a %s literal (anchor)" % (fn, adt))
+                continue
+            inst.site(b, loc, "%s{%s}" % (adt, ", ".join("%s: %s" % (k, got.get(k)) for k in fields)))
+            for k, v in fields.items():
+                if got.get(k) != v:
+                    inst.violation(b.path, "%s.%s" % (adt, k), "%s initialises %s to `%s`, expected `%s`" % (fn.split("::")[-2] + "::" + fn.split("::")[-1], k, str(got.get(k))[:80], v), at=b.span_at(loc))
+
+
+def cull_always_drains(cx, iid):
+    """T2: forgetting frames means removing them from the log: cull_log_entries calls FrameLog::drain on every path
+    (whatever the feedback generator reports), so that a frame older than the horizon is unknown to a late ack."""
+    R = cx.R
+    with cx.instance(iid, "T2 PAIR (presence)", "FrameQueue::cull_log_entries reaches FrameLog::drain(new base) on every path", floor=1) as inst:
+        b = R.body("FrameQueue::cull_log_entries")
+        dr = call_sites(b, "FrameLog::drain")
+        for l, lab in dr:
+            inst.site(b, l, lab)
+            if lab != "FrameLog::drain(arg1.frame_log,arg2)":
+                inst.violation(b.path, "drain argument", "cull_log_entries drains `%s`, expected the frame log up to the new base" % lab, at=b.span_at(l))
+        if not dr or b.reach_exit_avoiding(Loc(0, -1), [l for l, _ in dr]) is not None:
+            inst.violation(b.path, "drain skipped", "cull_log_entries can return without draining the frame log: forgotten frames stay acknowledgeable")
+
+
+def nofeedback_timer_writers(cx, iid):
+    """T9: the no-feedback timer is (re-)armed only by genuine feedback, by its own expiry and by the first send: an
+    acknowledgement frame as such (wrong nonce, unknown frame, duplicate, empty) must not keep the rate from backing off."""
+    R = cx.R
+    allowed = ("SendRateComp::new", "SendRateComp::handle_feedback", "SendRateComp::nofeedback_expired", "SendRateComp::notify_frame_sent")
+    with cx.instance(iid, "T9 WHO-MAY-WRITE", "nofeedback_exp_ms is written only in SendRateComp::{new, handle_feedback, nofeedback_expired, notify_frame_sent}", floor=2) as inst:
+        for b in R.all_bodies():
+            for loc, node, ps in b.field_writes(r".*\.nofeedback_exp_ms"):
+                short = b.path.split("half_connection::", 1)[-1]
+                inst.site(b, loc, "write of nofeedback_exp_ms in " + short)
+                if not any(b.path.endswith(a) for a in allowed):
+                    inst.violation(b.path, "write of nofeedback_exp_ms", "%s re-arms the no-feedback timer; only genuine feedback, the timer's own expiry and the first send may" % short, at=b.span_at(loc))
+
+
+def writer_loops_unconditional(cx, iid):
+    """T2: a frame writer serialises every element of the frame: inside the loop over a frame's list (ack groups,
+    datagrams) the builder's add() is reached on every iteration - an element skipped on the wire makes read(write(f)) != f."""
+    R = cx.R
+    table = [("frame::serial::write_ack", "AckFrameBuilder::add"), ("frame::serial::write_data", "DataFrameBuilder::add")]
+    with cx.instance(iid, "T2 PAIR (per iteration)", "write_ack / write_data add every element of the frame's list", floor=2) as inst:
+        for fn, adder in table:
+            b = R.body(fn)
+            Ls = b.loops()
+            adds = [l for l, t in b.calls(adder)]
+            if len(Ls) != 1 or not adds:
+                inst.violation(b.path, "element loop", "%s: expected one loop with a call of %s (anchor)" % (fn, adder))
+                continue
+            L = Ls[0]
+            for l in adds:
+                inst.site(b, l, "%s in the loop of %s" % (adder.split("::")[-1], fn.split("::")[-1]))
+            # from the loop's `Some(element)` edge the back edge must not be reachable without passing add()
+            fa = cx.fa(b)
+            hit = False
+            for (x, y, lab), lits in fa.edge_lits.items():
+                if x in L["body"] and y in L["body"] and any(re.fullmatch(r"is\(Iter::next\(var\d+\),Some\)", z) for z in lits):
+                    hit = True
+                    blockers = {l.bb for l in adds}
+                    seen, st = set(), [y]
+                    bad = False
+                    while st:
+                        z = st.pop()
+                        if z in seen or z in blockers:
+                            continue
+                        seen.add(z)
+                        if z == L["header"]:
+                            bad = True
+                            break
+                        st.extend(w for w, _ in b.succ[z] if w in L["body"])
+                    if bad:
+                        inst.violation(b.path, "element skipped", "%s can start the next iteration without having added the current element to the frame" % fn.split("::")[-1])
+            if not hit:
+                inst.violation(b.path, "element loop", "%s: no `Some(element)` edge found in the loop (anchor)" % fn)
+
+
+def syn_constructed_once(cx, iid):
+    """T9: on the reading side a connection request exists only as the result of read_handshake_syn_payload, whose
+    exact-length test is what makes a request cost its sender a full-size datagram; a second, laxer way to obtain a
+    HandshakeSynFrame from received bytes (a fallback parser) lets undersized requests draw replies."""
+    R = cx.R
+    with cx.instance(iid, "T9 WHO-MAY-CONSTRUCT", "inside frame::serial a HandshakeSynFrame is built only by read_handshake_syn_payload, under the exact-length test", floor=1) as inst:
+        n = 0
+        for b in R.all_bodies():
+            if not b.path.startswith("frame::serial") and "frame::serial::Serialize" not in b.path and "as frame::serial" not in b.path:
+                continue
+            for loc, s2 in b.assigns():
+                rv = s2["rv"]
+                if rv["k"] == "agg" and rv.get("adt", "").endswith("HandshakeSynFrame") and rv.get("fields"):
+                    n += 1
+                    inst.site(b, loc, "HandshakeSynFrame built in " + b.path.split("::")[-1])
+                    if not b.path.endswith("read_handshake_syn_payload"):
+                        inst.violation(b.path, "HandshakeSynFrame outside its reader", "%s builds a HandshakeSynFrame from received bytes without going through read_handshake_syn_payload's exact-length test" % b.path.split("::")[-1], at=b.span_at(loc))
+                    else:
+                        cx.guard(inst, b, [(loc, "HandshakeSynFrame{..}")], [[r"eq\(\[T\]::len\(arg1\),frame::serial::HANDSHAKE_SYN_FRAME_PAYLOAD_SIZE\)"], [r"eq\(frame::serial::HANDSHAKE_SYN_FRAME_PAYLOAD_SIZE,\[T\]::len\(arg1\)\)"]],
+                                 construct="SYN accepted without the exact-length test", why="only a full-size connection request may be answered")
+        if n == 0:
+            inst.violation("frame::serial", "HandshakeSynFrame", "no construction of HandshakeSynFrame found in the reader (anchor)")
